@@ -51,6 +51,17 @@ def main(argv):
         print(f"ANALYSIS-ERROR property={pid} rule=- at=- reason=unknown property")
         return 2
     spec = props.PROPS[pid]
+    # watchdog: the analysis of the tree itself is a matter of seconds; one that does not finish is an analysis error
+    try:
+        import signal
+
+        def _alarm(*_a):
+            raise TimeoutError("analysis watchdog")
+
+        signal.signal(signal.SIGALRM, _alarm)
+        signal.alarm(900 if tier == "quick" else 3000)
+    except (ValueError, AttributeError):
+        pass
     try:
         sources = load_sourceset()
         ctx = run_rules(pid, sources)
